@@ -105,38 +105,39 @@ structure RunRes where
   out : Out
   rest : List Nat
 
-/-- run `p` from `s`; `fuel` bounds the total number of loop iterations entered -/
+/-- run `p` from `s`; every statement visited costs one unit of `fuel` (so the recursion is structural and the kernel
+    can evaluate it) -/
 def run (H : Havoc) : Nat → Stmt → St → List Nat → Option RunRes
-  | _, .skip, s, cs => some ⟨[], s, .norm, cs⟩
-  | f, .seq a b, s, cs =>
+  | 0, _, _, _ => none
+  | _ + 1, .skip, s, cs => some ⟨[], s, .norm, cs⟩
+  | f + 1, .seq a b, s, cs =>
     match run H f a s cs with
     | some ⟨t1, s1, .norm, cs1⟩ =>
       (match run H f b s1 cs1 with
        | some ⟨t2, s2, o, cs2⟩ => some ⟨t1 ++ t2, s2, o, cs2⟩
        | none => none)
     | r => r
-  | f, .ite c t e, s, cs =>
+  | f + 1, .ite c t e, s, cs =>
     match cevalC c s cs with
     | some (true, cs1) => run H f t s cs1
     | some (false, cs1) => run H f e s cs1
     | none => none
-  | _, .set r k, s, cs => some ⟨[], s.set r k, .norm, cs⟩
-  | _, .havoc r site, s, c :: cs =>
+  | _ + 1, .set r k, s, cs => some ⟨[], s.set r k, .norm, cs⟩
+  | _ + 1, .havoc r site, s, c :: cs =>
     match (H site s)[c]? with
     | some v => some ⟨[], s.set r v, .norm, cs⟩
     | none => none
-  | _, .havoc _ _, _, [] => none
-  | _, .ev site kind, s, cs => some ⟨[⟨site, kind, s⟩], s, .norm, cs⟩
-  | _, .ret v, s, cs => some ⟨[], s, .ret v, cs⟩
-  | _, .brk, s, cs => some ⟨[], s, .brk, cs⟩
-  | _, .cont, s, cs => some ⟨[], s, .cont, cs⟩
-  | _, .abort, s, cs => some ⟨[], s, .abort, cs⟩
-  | _, .jmp, s, cs => some ⟨[], s, .jmp, cs⟩
-  | f, .block b, s, cs =>
+  | _ + 1, .havoc _ _, _, [] => none
+  | _ + 1, .ev site kind, s, cs => some ⟨[⟨site, kind, s⟩], s, .norm, cs⟩
+  | _ + 1, .ret v, s, cs => some ⟨[], s, .ret v, cs⟩
+  | _ + 1, .brk, s, cs => some ⟨[], s, .brk, cs⟩
+  | _ + 1, .cont, s, cs => some ⟨[], s, .cont, cs⟩
+  | _ + 1, .abort, s, cs => some ⟨[], s, .abort, cs⟩
+  | _ + 1, .jmp, s, cs => some ⟨[], s, .jmp, cs⟩
+  | f + 1, .block b, s, cs =>
     match run H f b s cs with
     | some ⟨t, s1, .jmp, cs1⟩ => some ⟨t, s1, .norm, cs1⟩
     | r => r
-  | 0, .loop _, _, _ => none
   | f + 1, .loop b, s, c :: cs =>
     if c == 0 then some ⟨[], s, .norm, cs⟩ else
     match run H f b s cs with
@@ -147,7 +148,6 @@ def run (H : Havoc) : Nat → Stmt → St → List Nat → Option RunRes
     | some ⟨t1, s1, .brk, cs1⟩ => some ⟨t1, s1, .norm, cs1⟩
     | r => r
   | _ + 1, .loop _, _, [] => none
-termination_by f p => (f, sizeOf p)
 
 end Nice.Flow
 
@@ -161,19 +161,19 @@ theorem run_exec (H : Havoc) : ∀ (f : Nat) (p : Stmt) (s : St) (cs : List Nat)
   all_goals try (first | exact Exec.skip _ | exact Exec.set _ _ _ | exact Exec.ev _ _ _ | exact Exec.ret _ _ | exact Exec.brk _
                        | exact Exec.cont _ | exact Exec.abort _ | exact Exec.jmp _ | exact Exec.loopExit _ _)
   all_goals try (cases h; done)
-  case case2 x1 _ _ _ _ x2 ih2 ih1 => exact Exec.seqN (ih2 _ x1) (ih1 _ x2)
-  case case4 hno ih1 =>
+  case case3 x1 _ _ _ _ x2 ih2 ih1 => exact Exec.seqN (ih2 _ x1) (ih1 _ x2)
+  case case5 hno ih1 =>
     refine Exec.seqX (ih1 r h) ?_
     intro ho
     obtain ⟨t, s1, o', cs1⟩ := r
     simp only at ho
     subst ho
     exact hno t s1 cs1 h
-  case case5 x ih1 => exact Exec.iteT (by simpa using cevalC_sound _ _ _ _ _ x) (ih1 r h)
-  case case6 x ih1 => exact Exec.iteF (by simpa using cevalC_sound _ _ _ _ _ x) (ih1 r h)
-  case case9 x => exact Exec.havoc (List.mem_of_getElem? x)
-  case case18 x ih1 => exact Exec.blockJ (ih1 _ x)
-  case case19 hno ih1 =>
+  case case6 x ih1 => exact Exec.iteT (by simpa using cevalC_sound _ _ _ _ _ x) (ih1 r h)
+  case case7 x ih1 => exact Exec.iteF (by simpa using cevalC_sound _ _ _ _ _ x) (ih1 r h)
+  case case10 x => exact Exec.havoc (List.mem_of_getElem? x)
+  case case19 x ih1 => exact Exec.blockJ (ih1 _ x)
+  case case20 hno ih1 =>
     refine Exec.blockN (ih1 r h) ?_
     intro ho
     obtain ⟨t, s1, o', cs1⟩ := r
@@ -207,7 +207,7 @@ namespace Nice.Flow
 /-! a small fixed program: validate, gate, effect — the run with choices [0] (validation returns the first allowed value) is an
     execution, and it emits the effect in a state whose register 0 is that value -/
 def demo : Stmt := .seq (.havoc 0 1) (.seq (.ite (.not (.eq 0 7)) (.ret 0) .skip) (.ev 9 0))
-example : (run (fun _ _ => [7, 3]) 4 demo {} [0]).map (fun r => (r.tr.map (·.st.r0), r.out)) = some ([7], .norm) := by decide
+example : (run (fun _ _ => [7, 3]) 8 demo {} [0]).map (fun r => (r.tr.map (·.st.r0), r.out)) = some ([7], .norm) := by decide
 example : ∃ tr σ o, Exec (fun _ _ => [7, 3]) demo {} tr σ o ∧ tr.length = 1 :=
-  ⟨_, _, _, run_exec _ 4 demo {} [0] _ rfl, rfl⟩
+  ⟨_, _, _, run_exec _ 8 demo {} [0] _ rfl, rfl⟩
 end Nice.Flow
